@@ -43,6 +43,10 @@ def project_list(tier):
     out.append(("chain:drain", ("f_chain", {}), {"njob": 2}, True))
     out.append(("fail:drain", ("f_fail", {"kind": "fail"}), {"njob": 2, "keep_going": True}, True))
     out.append(("glob_product", ("f_twoplans", {"kind": "glob_vs_output_conflict"}), {"njob": 1}, False))
+    # second build in which a static file matched by a sub-plan's glob becomes a build product
+    for nj in (1, 2):
+        out.append((f"glob_product_late:j{nj}", ("f_fail", {"kind": "globprod2"}), {"njob": nj}, False,
+                    ("f_fail", {"kind": "globprod1"})))
     # second builds: the first build leaves failed steps behind, the plan is then repaired
     for kg in (False, True):
         for first in ("child_and_plan_fail", "fail", "plan_fails"):
@@ -113,7 +117,13 @@ def analyse(obs):
     invalid_target = any(r[0] == "ERROR" and r[1].startswith("Invalid build target") for r in obs.reports)
     # FAILED bit
     exp_failed = bool(failed) or invalid_target
-    glob_error = any(r[0] == "ERROR" and "glob match(es) are files that a step builds" in r[1] for r in obs.reports)
+    # independent of what was reported: an attached glob pattern whose regex matches an attached
+    # product at the end of the build
+    import re as _re
+    products = {p for s in attached for p in obs.db_outputs.get(s, [])
+                if p in obs.db_files and not obs.db_files[p][2]}
+    glob_error = any(_re.compile(rx).fullmatch(p) for s in attached for rx in obs.db_nglobs.get(s, [])
+                     for p in products)
     if bool(rc & FAILED) != (exp_failed or glob_error):
         out.append(("failed-bit", f"FAILED bit is {bool(rc & FAILED)}, attached failed steps: {failed}, "
                     f"invalid target: {invalid_target}"))
